@@ -81,6 +81,74 @@ Proof.
     rewrite IH by (intros Hx; apply Hn; right; exact Hx). rewrite <- app_assoc. reflexivity.
 Qed.
 
+Lemma index_crlf_found : forall x y i, exists n, index_crlf (x ++ 13 :: 10 :: y) i = Some n.
+Proof.
+  induction x as [|c x IH]; intros y i.
+  - exists i. cbn [app]. rewrite index_crlf_unfold. reflexivity.
+  - cbn [app]. destruct (x ++ 13 :: 10 :: y) as [|d t] eqn:Et; [destruct x; discriminate|].
+    rewrite index_crlf_unfold. destruct ((c =? 13) && (d =? 10)); [eexists; reflexivity|]. rewrite <- Et. apply IH.
+Qed.
+Lemma index_crlf_first : forall x y i, ~ In 13 x -> index_crlf (x ++ 13 :: 10 :: y) i = Some (i + List.length x)%nat.
+Proof.
+  induction x as [|c x IH]; intros y i Hn.
+  - cbn [app List.length]. rewrite index_crlf_unfold, Nat.add_0_r. reflexivity.
+  - cbn [app]. destruct (x ++ 13 :: 10 :: y) as [|d t] eqn:Et; [destruct x; discriminate|].
+    rewrite index_crlf_unfold. destruct (c =? 13) eqn:Ec; [apply N.eqb_eq in Ec; subst c; exfalso; apply Hn; left; reflexivity|].
+    cbn [andb]. rewrite <- Et, IH by (intros Hx; apply Hn; right; exact Hx). cbn [List.length]. f_equal. lia.
+Qed.
+Lemma data_hdr_shape : forall r0 a r1 r2 sig r3 r4,
+  read_until 59 r0 [] = Some (a, r1) -> read_and_skip chunkSigKw r1 = R_ok r2 ->
+  read_until 13 r2 [] = Some (sig, r3) -> read_and_skip [10] r3 = R_ok r4 ->
+  r0 = (a ++ 59 :: chunkSigKw ++ sig) ++ 13 :: 10 :: r4 /\ ~ In 59 a /\ ~ In 13 sig.
+Proof.
+  intros r0 a r1 r2 sig r3 r4 H1 H2 H3 H4.
+  destruct (read_until_inv _ _ _ _ _ H1) as [m1 [Ha [Hl Hn1]]]. destruct (read_until_inv _ _ _ _ _ H3) as [m3 [Hs [Hl3 Hn3]]].
+  cbn [app] in Ha, Hs. subst a sig. rewrite (read_and_skip_inv _ _ _ H2) in Hl. rewrite Hl3 in Hl. rewrite (read_and_skip_inv _ _ _ H4) in Hl.
+  split; [|split; assumption]. rewrite Hl. rewrite <- !app_assoc. cbn [app]. rewrite <- !app_assoc. reflexivity.
+Qed.
+
+Lemma hexval_13 : hexval 13 = None. Proof. reflexivity. Qed.
+Lemma hexdigits_no13 : forall l acc v, hexdigits l acc = Some v -> ~ In 13 l.
+Proof.
+  induction l as [|c l IH]; intros acc v H; [intros []|].
+  cbn [hexdigits] in H. destruct (hexval c) as [d|] eqn:Ec; [|discriminate].
+  destruct (acc * 16 + d <=? 9223372036854775808)%Z; [|discriminate].
+  intros [Hc|Hc]; [subst c; rewrite hexval_13 in Ec; discriminate|exact (IH _ _ H Hc)].
+Qed.
+Lemma parse_hex_no13 : forall l v, parse_hex l = Some v -> ~ In 13 l.
+Proof.
+  intros l v H. unfold parse_hex in H. destruct l as [|c r]; [discriminate|].
+  destruct (c =? 43) eqn:E1; [|destruct (c =? 45) eqn:E2].
+  - destruct r as [|x r']; [discriminate|]. destruct (hexdigits (x :: r') 0) eqn:Eh; [|discriminate].
+    apply N.eqb_eq in E1. subst c. intros [Hc|Hc]; [discriminate|exact (hexdigits_no13 _ _ _ Eh Hc)].
+  - destruct r as [|x r']; [discriminate|]. destruct (hexdigits (x :: r') 0) eqn:Eh; [|discriminate].
+    apply N.eqb_eq in E2. subst c. intros [Hc|Hc]; [discriminate|exact (hexdigits_no13 _ _ _ Eh Hc)].
+  - destruct (hexdigits (c :: r) 0) eqn:Eh; [|discriminate]. exact (hexdigits_no13 _ _ _ Eh).
+Qed.
+Lemma kw_no13 : ~ In 13 chunkSigKw.
+Proof. intros H. vm_compute in H. repeat (destruct H as [H|H]; [discriminate|]). exact H. Qed.
+
+Lemma app_prefix_split : forall (x y u v : bytes), x ++ y = u ++ v -> (List.length u <= List.length x)%nat -> x = u ++ skipn (List.length u) x.
+Proof.
+  intros x y u v H Hl. assert (Hf : firstn (List.length u) x = u).
+  { assert (H1 : firstn (List.length u) (x ++ y) = firstn (List.length u) (u ++ v)) by (rewrite H; reflexivity).
+    rewrite !firstn_app in H1. replace (List.length u - List.length x)%nat with O in H1 by lia.
+    rewrite Nat.sub_diag in H1. cbn [firstn] in H1. rewrite !app_nil_r, firstn_all in H1. exact H1. }
+  rewrite <- Hf at 1. symmetry. apply firstn_skipn.
+Qed.
+
+Lemma beq_refl : forall a, beq a a = true.
+Proof. induction a as [|x a IH]; cbn; [reflexivity|]. rewrite N.eqb_refl. exact IH. Qed.
+Lemma tname_no58 : forall t, ~ In 58 (trailer_name t).
+Proof. intros [] H; vm_compute in H; repeat (destruct H as [H|H]; [discriminate|]); exact H. Qed.
+Lemma tsk_no58 : ~ In 58 trailerSigKw.
+Proof. intros H. vm_compute in H. repeat (destruct H as [H|H]; [discriminate|]). exact H. Qed.
+
+Lemma skipn_len_app : forall (l x : bytes), skipn (List.length l) (l ++ x) = x.
+Proof. induction l as [|c l IH]; intros x; cbn; [reflexivity|apply IH]. Qed.
+Lemma firstn_len_app : forall (l x : bytes), firstn (List.length l) (l ++ x) = l.
+Proof. induction l as [|c l IH]; intros x; cbn; [reflexivity|rewrite IH; reflexivity]. Qed.
+
 (* ---------- 2. the header parser as a function of the header bytes *)
 Section Frag.
   Variables (sha256 : bytes -> bytes) (hmac256 : bytes -> bytes -> bytes) (hex : bytes -> bytes).
@@ -154,7 +222,7 @@ Section Frag.
   Inductive hres :=
   | HErr (e : rerr)
   | HData (size : Z) (sig : bytes) (hdlen : nat)            (* hdlen: length of the header, counted from the start of the bytes *)
-  | HFinal (sig : bytes) (tr : option (bytes * bytes)).     (* trailer signature, declared checksum *)
+  | HFinal (sig : bytes) (tr : option (bytes * bytes)) (hdlen : nat).     (* trailer signature, declared checksum *)
 
   Definition hparse (first : bool) (header : bytes) : option hres :=
     let skip_k (exp l : bytes) (k : bytes -> option hres) : option hres :=
@@ -183,8 +251,8 @@ Section Frag.
             until_k 58 r7 (fun tsp r8 =>
             if negb (beq tsp trailerSigKw) then Some (HErr E_InvalidChunk) else
             until_k 13 r8 (fun tsig r9 =>
-            skip_k [10; 13; 10] r9 (fun _ => Some (HFinal sig (Some (tsig, checksum))))))))))
-        | None => skip_k [10; 13; 10] r3 (fun _ => Some (HFinal sig None))
+            skip_k [10; 13; 10] r9 (fun rl => Some (HFinal sig (Some (tsig, checksum)) (List.length header - List.length rl)))))))))
+        | None => skip_k [10; 13; 10] r3 (fun rl => Some (HFinal sig None (List.length header - List.length rl)))
         end
       else
         skip_k [10] r3 (fun _ =>
@@ -201,8 +269,8 @@ Section Frag.
         PH_ok {| stash := None; left := left s; prevSig := prevSig s; parsedSig := parsedSig s; hbuf := hbuf s;
                  cbuf := cbuf s; firstHdr := false; isEOF := isEOF s; trailerSig := trailerSig s;
                  parsedChecksum := parsedChecksum s |} size sig (Z.of_nat n - Z.of_nat stashLen)
-    | HFinal sig None => PH_ok (set_stash s None) 0 sig 0
-    | HFinal sig (Some (tsig, checksum)) =>
+    | HFinal sig None _ => PH_ok (set_stash s None) 0 sig 0
+    | HFinal sig (Some (tsig, checksum)) _ =>
         PH_ok {| stash := None; left := left s; prevSig := prevSig s; parsedSig := parsedSig s; hbuf := hbuf s;
                  cbuf := cbuf s; firstHdr := firstHdr s; isEOF := isEOF s; trailerSig := tsig;
                  parsedChecksum := checksum |} 0 sig 0
@@ -231,31 +299,468 @@ Section Frag.
   Qed.
 
   (* a verdict reached on a header stands when more bytes follow *)
-  Ltac mstep b :=
-    match goal with
-    | H : context [read_and_skip ?e ?l] |- _ =>
+  Ltac mstep H b :=
+    match type of H with
+    | context [read_and_skip ?e ?l] =>
         let E := fresh "E" in destruct (read_and_skip e l) eqn:E;
         [rewrite (read_and_skip_ok_app _ _ _ b E) | discriminate H | rewrite (read_and_skip_bad_app _ _ b E)]
-    | H : context [read_until ?d ?l ?acc] |- _ =>
+    | context [read_until ?d ?l ?acc] =>
         let E := fresh "E" in destruct (read_until d l acc) as [[? ?]|] eqn:E;
         [rewrite (read_until_app _ _ _ _ _ b E) | discriminate H]
-    | H : context [parse_hex ?a] |- _ => destruct (parse_hex a) eqn:?
-    | H : context [(?a <? ?c)%Z] |- _ => destruct (a <? c)%Z eqn:?
-    | H : context [(?a =? ?c)%Z] |- _ => destruct (a =? c)%Z eqn:?
-    | H : context [negb ?a] |- _ => destruct (negb a) eqn:?
+    | context [parse_hex ?a] => destruct (parse_hex a) eqn:?
+    | context [(?a <? ?c)%Z] => destruct (a <? c)%Z eqn:?
+    | context [(?a =? ?c)%Z] => destruct (a =? c)%Z eqn:?
+    | context [negb ?a] => destruct (negb a) eqn:?
     end.
 
   Lemma hparse_mono : forall first h r b, hparse first h = Some r -> hparse first (h ++ b) = Some r.
   Proof.
     intros first h r b H. unfold hparse in *.
     destruct first; destruct trailer as [t|]; cbv beta zeta in *;
-      repeat (first [exact H | mstep b; cbv beta iota in * ]).
+      repeat (first [exact H | mstep H b; cbv beta iota in H |- * ]).
+    all: try (injection H as <-; do 2 f_equal; rewrite !app_length; lia).
     all: try match goal with
-         | E : read_and_skip [13; 10] h = R_ok ?r0 |- _ => rewrite (read_and_skip_inv _ _ _ E) in *; cbn [skipn app] in *
+         | E : read_and_skip [13; 10] ?hh = R_ok ?r0 |- _ => rewrite (read_and_skip_inv _ _ _ E) in *; cbn [skipn app] in *
          end.
     all: cbn [skipn] in *.
-    all: match goal with
-         | H : context [index_crlf ?l 0] |- _ => destruct (index_crlf l 0) eqn:Ei; [rewrite (index_crlf_app _ _ _ b Ei); exact H| discriminate H]
+    all: match type of H with
+         | context [index_crlf ?l 0] => destruct (index_crlf l 0) eqn:Ei; [rewrite (index_crlf_app _ _ _ b Ei); exact H|]
+         end.
+    all: exfalso; match goal with
+         | E1 : read_until 59 ?r0 [] = Some (?a, ?r1), E2 : read_and_skip chunkSigKw ?r1 = R_ok ?r2,
+           E3 : read_until 13 ?r2 [] = Some (?sg, ?r3), E4 : read_and_skip [10] ?r3 = R_ok ?r4 |- _ =>
+             destruct (data_hdr_shape _ _ _ _ _ _ _ E1 E2 E3 E4) as [Hs _]; rewrite Hs in Ei;
+             destruct (index_crlf_found (a ++ 59 :: chunkSigKw ++ sg) r4 0) as [n Hn]; rewrite Hn in Ei; discriminate Ei
          end.
   Qed.
+
+  (* ---------- the shape of a data-chunk header *)
+  Definition pre (first : bool) : bytes := if first then [] else [13; 10].
+  Definition dhdr (first : bool) (a sig : bytes) : bytes := pre first ++ a ++ 59 :: chunkSigKw ++ sig ++ [13; 10].
+
+  Lemma dhdr_body : forall a sig r, (a ++ 59 :: chunkSigKw ++ sig ++ [13; 10]) ++ r = (a ++ 59 :: chunkSigKw ++ sig) ++ 13 :: 10 :: r.
+  Proof. intros. rewrite <- !app_assoc. cbn [app]. rewrite <- !app_assoc. reflexivity. Qed.
+
+  Lemma no13_body : forall a sig sz, parse_hex a = Some sz -> ~ In 13 sig -> ~ In 13 (a ++ 59 :: chunkSigKw ++ sig).
+  Proof.
+    intros a sig sz Ha Hs H. apply in_app_or in H. destruct H as [H|[H|H]]; [exact (parse_hex_no13 _ _ Ha H)|discriminate|].
+    apply in_app_or in H. destruct H as [H|H]; [exact (kw_no13 H)|exact (Hs H)].
+  Qed.
+
+  Lemma hparse_dhdr : forall first a sig sz r,
+    ~ In 59 a -> parse_hex a = Some sz -> (sz <? 0)%Z = false -> (sz =? 0)%Z = false -> ~ In 13 sig ->
+    hparse first (dhdr first a sig ++ r) = Some (HData sz sig (List.length (dhdr first a sig))).
+  Proof.
+    intros first a sig sz r Ha Hp Hneg Hz Hs. unfold hparse, dhdr.
+    assert (Hbody : forall skip, skip = List.length (pre first) ->
+      match read_until 59 ((a ++ 59 :: chunkSigKw ++ sig ++ [13; 10]) ++ r) [] with
+      | Some (sizeStr, r1) =>
+          match parse_hex sizeStr with
+          | None => Some (HErr E_InvalidChunk)
+          | Some size => if (size <? 0)%Z then Some (HErr E_InvalidChunk) else
+              match read_and_skip chunkSigKw r1 with
+              | R_ok r2 => match read_until 13 r2 [] with
+                           | Some (sig0, r3) =>
+                               if (size =? 0)%Z then None
+                               else match read_and_skip [10] r3 with
+                                    | R_ok _ => match index_crlf ((a ++ 59 :: chunkSigKw ++ sig ++ [13; 10]) ++ r) 0 with
+                                                | None => Some (HErr E_Panic) | Some ind => Some (HData size sig0 (ind + skip + 2)) end
+                                    | R_eof => None | R_bad => Some (HErr E_Malformed) end
+                           | None => None end
+              | R_eof => None | R_bad => Some (HErr E_Malformed) end
+          end
+      | None => None
+      end = Some (HData sz sig (List.length (pre first ++ a ++ 59 :: chunkSigKw ++ sig ++ [13; 10])))).
+    { intros skip Hskip. rewrite <- app_assoc. cbn [app]. rewrite (read_until_self 59 a _ [] Ha). cbn [app]. rewrite Hp, Hneg.
+      rewrite <- !app_assoc. rewrite read_and_skip_self. cbn [app]. rewrite (read_until_self 13 sig _ [] Hs). cbn [app]. rewrite Hz.
+      cbn [read_and_skip]. rewrite N.eqb_refl.
+      replace (a ++ 59 :: chunkSigKw ++ sig ++ 13 :: 10 :: r) with ((a ++ 59 :: chunkSigKw ++ sig) ++ 13 :: 10 :: r)
+        by (rewrite <- !app_assoc; cbn [app]; rewrite <- !app_assoc; reflexivity).
+      rewrite (index_crlf_first _ _ _ (no13_body _ _ _ Hp Hs)). do 2 f_equal. subst skip. rewrite !app_length. cbn [List.length]. rewrite !app_length. cbn [List.length]. lia. }
+    destruct first; cbn [pre app].
+    - cbn [skipn]. specialize (Hbody O eq_refl). cbn [pre app] in Hbody.
+      destruct (read_until 59 _ []) as [[sizeStr r1]|]; [|discriminate Hbody]. destruct (parse_hex sizeStr) as [size|]; [|exact Hbody].
+      destruct (size <? 0)%Z; [exact Hbody|]. destruct (read_and_skip chunkSigKw r1) as [r2| |]; try exact Hbody.
+      destruct (read_until 13 r2 []) as [[sig0 r3]|]; [|discriminate Hbody]. destruct (size =? 0)%Z; [discriminate Hbody|]. exact Hbody.
+    - cbn [read_and_skip]. rewrite !N.eqb_refl. cbn [skipn]. specialize (Hbody 2%nat eq_refl). cbn [pre app] in Hbody.
+      destruct (read_until 59 _ []) as [[sizeStr r1]|]; [|discriminate Hbody]. destruct (parse_hex sizeStr) as [size|]; [|exact Hbody].
+      destruct (size <? 0)%Z; [exact Hbody|]. destruct (read_and_skip chunkSigKw r1) as [r2| |]; try exact Hbody.
+      destruct (read_until 13 r2 []) as [[sig0 r3]|]; [|discriminate Hbody]. destruct (size =? 0)%Z; [discriminate Hbody|]. exact Hbody.
+  Qed.
+
+  Ltac istep H :=
+    match type of H with
+    | context [read_and_skip ?e ?l] => let E := fresh "E" in destruct (read_and_skip e l) eqn:E; [| discriminate H | discriminate H]
+    | context [read_until ?d ?l ?acc] => let E := fresh "E" in destruct (read_until d l acc) as [[? ?]|] eqn:E; [| discriminate H]
+    | context [parse_hex ?a] => let E := fresh "Ehex" in destruct (parse_hex a) eqn:E; [| discriminate H]
+    | context [(?a <? ?c)%Z] => let E := fresh "Eneg" in destruct (a <? c)%Z eqn:E; [discriminate H|]
+    | context [(?a =? ?c)%Z] => let E := fresh "Ezero" in destruct (a =? c)%Z eqn:E
+    | context [negb ?a] => let E := fresh "Eb" in destruct (negb a) eqn:E; [discriminate H|]
+    end.
+
+  Lemma hparse_data_inv : forall first H sz sig k, hparse first H = Some (HData sz sig k) ->
+    exists a r, H = dhdr first a sig ++ r /\ k = List.length (dhdr first a sig) /\ ~ In 59 a /\ parse_hex a = Some sz /\
+                (sz <? 0)%Z = false /\ (sz =? 0)%Z = false /\ ~ In 13 sig.
+  Proof.
+    intros first H sz sig k Hp. unfold hparse in Hp.
+    destruct first; destruct trailer as [t|]; cbv beta zeta in Hp; repeat (istep Hp; cbv beta iota in Hp); try discriminate Hp.
+    all: try match goal with
+         | E : read_and_skip [13; 10] ?hh = R_ok ?r0 |- _ => rewrite (read_and_skip_inv _ _ _ E) in *; cbn [skipn app] in *
+         end.
+    all: cbn [skipn] in Hp.
+    all: match goal with
+         | E1 : read_until 59 ?r0 [] = Some (?a, ?r1), E2 : read_and_skip chunkSigKw ?r1 = R_ok ?r2,
+           E3 : read_until 13 ?r2 [] = Some (?sg, ?r3), E4 : read_and_skip [10] ?r3 = R_ok ?r4 |- _ =>
+             destruct (data_hdr_shape _ _ _ _ _ _ _ E1 E2 E3 E4) as [Hs [Hn59 Hn13]]; rewrite Hs in Hp |- *;
+             rewrite (index_crlf_first _ _ _ (no13_body _ _ _ Ehex Hn13)) in Hp; injection Hp as <- <- <-;
+             exists a, r4; unfold dhdr; cbn [pre app]; rewrite <- (dhdr_body a sg r4)
+         end.
+    all: repeat split; try assumption; try reflexivity.
+    all: rewrite ?app_length; cbn [List.length]; rewrite ?app_length; cbn [List.length]; rewrite ?app_length; cbn [List.length]; replace (List.length chunkSigKw) with 16%nat by reflexivity; lia.
+  Qed.
+
+  (* a header that was incomplete on h ends beyond h *)
+  Lemma hparse_none_data_len : forall first h b sz sig k,
+    hparse first h = None -> hparse first (h ++ b) = Some (HData sz sig k) -> (List.length h < k)%nat.
+  Proof.
+    intros first h b sz sig k Hn Hs. destruct (hparse_data_inv _ _ _ _ _ Hs) as [a [r [Heq [Hk [Ha [Hp [Hneg [Hz Hsg]]]]]]]].
+    destruct (le_lt_dec k (List.length h)) as [Hle|Hlt]; [|exact Hlt]. exfalso. subst k.
+    rewrite (app_prefix_split _ _ _ _ Heq Hle) in Hn. rewrite (hparse_dhdr first a sig sz _ Ha Hp Hneg Hz Hsg) in Hn. discriminate Hn.
+  Qed.
+
+  Lemma hparse_final_len : forall first h sig tr k, hparse first h = Some (HFinal sig tr k) -> (k <= List.length h)%nat.
+  Proof.
+    intros first h sig tr k Hp. unfold hparse in Hp.
+    destruct first; destruct trailer as [t|]; cbv beta zeta in Hp; repeat (istep Hp; cbv beta iota in Hp); try discriminate Hp.
+    all: try (destruct (index_crlf _ _) in Hp; discriminate Hp).
+    all: injection Hp as <- <- <-; lia.
+  Qed.
+
+  (* ---------- 3. par, one step at a time *)
+  Lemma parse_header_h : forall s p,
+    parse_header s p = if Nat.ltb 1024 (stash_len s) then PH_err E_InvalidChunk else
+                       match hparse (firstHdr s) (stash_bytes s ++ p) with
+                       | None => on_eof s (stash_bytes s ++ p)
+                       | Some r => apply_h s (stash_len s) r
+                       end.
+  Proof. intros s p. rewrite parse_header_core. destruct (Nat.ltb 1024 (stash_len s)); [reflexivity|]. apply ph_core_hparse. Qed.
+
+  Definition pending (s : cst) : cst * bool := match parsedSig s with [] => (s, true) | _ => check_sig s end.
+
+  Definition par_body (rec : cst -> bytes -> bytes * rerr * cst) (s : cst) (p : bytes) : bytes * rerr * cst :=
+    let '(s1, ok) := pending s in
+    if negb ok then ([], E_SigMismatch, s1) else
+    match parse_header s1 p with
+    | PH_skip s2 => ([], E_None, set_left s2 0)
+    | PH_err e => ([], e, s1)
+    | PH_ok s2 size sig off =>
+      let s3 := set_parsed s2 sig in
+      if (size =? 0)%Z then
+        let '(s4, ok2) := check_sig (reset_hash s3) in
+        if negb ok2 then ([], E_SigMismatch, s4) else
+        match trailer with
+        | Some t =>
+            if negb (beq (trailer_sum t (cbuf s4)) (parsedChecksum s4)) then ([], E_BadDigest, s4)
+            else if negb (beq (trailer_signature sha256 hmac256 hex key stsTrailer t (prevSig s4) (parsedChecksum s4)) (trailerSig s4)) then ([], E_SigMismatch, s4)
+            else ([], E_EOF, s4)
+        | None => ([], E_EOF, s4)
+        end
+      else
+        if (off <? 0)%Z || (Z.of_nat (List.length p) <? off)%Z then ([], E_Panic, s3) else
+        let data := skipn (Z.to_nat off) p in
+        let n := Z.of_nat (List.length data) in
+        if (size <? n)%Z then
+          let d := firstn (Z.to_nat size) data in
+          let '(out, e, s5) := rec (hash_data (set_left s3 0) d) (skipn (Z.to_nat size) data) in
+          (d ++ out, e, s5)
+        else (data, E_None, hash_data (set_left s3 (size - n)) data)
+    end.
+
+  Lemma par_S : forall f s p, par (S f) s p = par_body (par f) s p.
+  Proof. reflexivity. Qed.
+
+  (* ---------- the shape of the final header *)
+  Definition ftail (ck tsig : bytes) : bytes :=
+    match trailer with
+    | None => [13; 10]
+    | Some t => trailer_name t ++ 58 :: ck ++ 13 :: 10 :: trailerSigKw ++ 58 :: tsig ++ [13; 10; 13; 10]
+    end.
+  Definition fhdr (first : bool) (a0 sig ck tsig : bytes) : bytes :=
+    pre first ++ a0 ++ 59 :: chunkSigKw ++ sig ++ 13 :: 10 :: ftail ck tsig.
+
+  Lemma hparse_fhdr : forall first a0 sig ck tsig r,
+    ~ In 59 a0 -> parse_hex a0 = Some 0%Z -> ~ In 13 sig ->
+    (forall t, trailer = Some t -> ~ In 13 ck /\ valid_checksum t ck = true /\ ~ In 13 tsig) ->
+    hparse first (fhdr first a0 sig ck tsig ++ r) =
+    Some (HFinal sig (match trailer with None => None | Some _ => Some (tsig, ck) end) (List.length (fhdr first a0 sig ck tsig))).
+  Proof.
+    intros first a0 sig ck tsig r Ha Hp Hs Ht. unfold hparse, fhdr, ftail.
+    assert (Hlen : forall (x y : bytes), (List.length (x ++ y) - List.length y = List.length x)%nat) by (intros; rewrite app_length; lia).
+    destruct trailer as [t|]; [destruct (Ht t eq_refl) as [Hck [Hv Hts]]|]; clear Ht.
+    all: destruct first; cbn [pre app read_and_skip]; rewrite ?N.eqb_refl.
+    all: repeat first [rewrite <- app_assoc | progress cbn [app]].
+    all: rewrite (read_until_self 59 a0 _ [] Ha); cbn [app]; rewrite Hp; cbn [Z.ltb Z.compare Z.eqb];
+         rewrite read_and_skip_self; rewrite (read_until_self 13 sig _ [] Hs); cbn [app read_and_skip]; rewrite ?N.eqb_refl.
+    1, 2: rewrite (read_until_self 58 (trailer_name t) _ [] (tname_no58 t)); cbn [app]; rewrite beq_refl; cbn [negb];
+         rewrite (read_until_self 13 ck _ [] Hck); cbn [app]; rewrite Hv; cbn [negb read_and_skip]; rewrite ?N.eqb_refl;
+         rewrite (read_until_self 58 trailerSigKw _ [] tsk_no58); cbn [app]; rewrite beq_refl; cbn [negb];
+         rewrite (read_until_self 13 tsig _ [] Hts); cbn [app read_and_skip]; rewrite ?N.eqb_refl.
+    all: do 2 f_equal.
+    all: match goal with |- (List.length ?L - List.length ?rr)%nat = List.length ?F => replace L with (F ++ rr); [apply Hlen|] end.
+    all: repeat first [rewrite <- app_assoc | progress cbn [app]]; reflexivity.
+  Qed.
+
+  (* ---------- 3b. what a caller can see of a result: the state only matters when the read goes on *)
+  Definition nrm (r : bytes * rerr * cst) : bytes * rerr * option cst :=
+    let '(o, e, s) := r in (o, e, match e with E_None => Some s | _ => None end).
+
+  Ltac proj := cbn [stash left prevSig parsedSig hbuf cbuf firstHdr isEOF trailerSig parsedChecksum].
+
+  Lemma pending_set_left : forall s l, pending (set_left s l) = (set_left (fst (pending s)) l, snd (pending s)).
+  Proof. intros s l. unfold pending, SignedChunk.check_sig, set_left. proj. destruct (parsedSig s) eqn:E; cbn [fst snd]; proj; rewrite ?E; reflexivity. Qed.
+
+  Lemma parse_header_set_left : forall s l p,
+    parse_header (set_left s l) p = match parse_header s p with
+                                    | PH_skip s2 => PH_skip (set_left s2 l)
+                                    | PH_err e => PH_err e
+                                    | PH_ok s2 sz sg off => PH_ok (set_left s2 l) sz sg off
+                                    end.
+  Proof.
+    intros s l p. rewrite !parse_header_h. unfold stash_len, stash_bytes, set_left. proj.
+    destruct (Nat.ltb 1024 _); [reflexivity|]. destruct (hparse (firstHdr s) _) as [[e|sz sg k|sg [[ts ck]|] k]|]; try reflexivity.
+    unfold on_eof, set_stash. proj. destruct (isEOF s); reflexivity.
+  Qed.
+
+  Lemma hparse_err_some : forall first h e, hparse first h = Some (HErr e) -> e <> E_None.
+  Proof.
+    intros first h e H. unfold hparse in H. destruct first; destruct trailer as [t|]; cbv beta zeta in H;
+      repeat match type of H with context [match ?x with _ => _ end] => destruct x eqn:?; cbv beta iota in H end;
+      inversion H; discriminate.
+  Qed.
+  Lemma parse_header_err : forall s p, parse_header s p <> PH_err E_None.
+  Proof.
+    intros s p. rewrite parse_header_h. destruct (Nat.ltb 1024 _); [discriminate|].
+    destruct (hparse (firstHdr s) _) as [[e|sz sg k|sg [[ts ck]|] k]|] eqn:E; try discriminate.
+    - cbn [apply_h]. intros H. inversion H. subst e. exact (hparse_err_some _ _ _ E eq_refl).
+    - unfold on_eof. destruct (isEOF s); discriminate.
+  Qed.
+
+  Lemma par_body_left : forall rec s l p, nrm (par_body rec (set_left s l) p) = nrm (par_body rec s p).
+  Proof.
+    intros rec s l p. unfold par_body. rewrite pending_set_left. destruct (pending s) as [s1 ok]. cbn [fst snd].
+    destruct ok; cbn [negb]; [|reflexivity]. rewrite parse_header_set_left.
+    destruct (parse_header s1 p) as [s2|e|s2 sz sg off] eqn:Eph; [reflexivity| |].
+    { destruct e; try reflexivity. exfalso. exact (parse_header_err _ _ Eph). }
+    destruct (sz =? 0)%Z.
+    - unfold SignedChunk.check_sig, reset_hash, set_parsed, set_left. proj. destruct (beq _ sg); cbn [negb]; [|reflexivity].
+      destruct trailer as [t|]; [|reflexivity]. destruct (negb (beq _ (parsedChecksum s2))); [reflexivity|]. destruct (negb (beq _ (trailerSig s2))); reflexivity.
+    - destruct ((off <? 0)%Z || _); [reflexivity|]. destruct (sz <? _)%Z; reflexivity.
+  Qed.
+
+  Lemma par_left : forall f s l p, nrm (par f (set_left s l) p) = nrm (par f s p).
+  Proof. intros [|f] s l p; [reflexivity|]. rewrite !par_S. apply par_body_left. Qed.
+
+  (* ---------- 3c. fuel: any amount above the number of bytes is the same *)
+  Lemma parse_header_ok_size : forall s p s2 sz sg off, parse_header s p = PH_ok s2 sz sg off -> sz = 0%Z \/ (0 < sz)%Z.
+  Proof.
+    intros s p s2 sz sg off H. rewrite parse_header_h in H. destruct (Nat.ltb 1024 _); [discriminate|].
+    destruct (hparse (firstHdr s) _) as [[e|sz' sg' k|sg' [[ts ck]|] k]|] eqn:E.
+    - discriminate.
+    - cbn [apply_h] in H. inversion H; subst. destruct (hparse_data_inv _ _ _ _ _ E) as [a [r [_ [_ [_ [_ [Hneg [Hz _]]]]]]]].
+      right. apply Z.ltb_ge in Hneg. apply Z.eqb_neq in Hz. lia.
+    - cbn [apply_h] in H. inversion H. left; reflexivity.
+    - cbn [apply_h] in H. inversion H. left; reflexivity.
+    - unfold on_eof in H. destruct (isEOF s); discriminate.
+  Qed.
+
+  Lemma par_body_ext : forall rec1 rec2 s p,
+    (forall s' p', (List.length p' < List.length p)%nat -> rec1 s' p' = rec2 s' p') -> par_body rec1 s p = par_body rec2 s p.
+  Proof.
+    intros rec1 rec2 s p Hrec. unfold par_body. destruct (pending s) as [s1 ok]. destruct (negb ok); [reflexivity|].
+    destruct (parse_header s1 p) as [s2|e|s2 sz sg off] eqn:Eph; [reflexivity|reflexivity|].
+    destruct (sz =? 0)%Z eqn:Ez; [reflexivity|]. destruct ((off <? 0)%Z || _) eqn:Eo; [reflexivity|].
+    destruct (sz <? _)%Z eqn:El; [|reflexivity]. rewrite Hrec; [reflexivity|].
+    destruct (parse_header_ok_size _ _ _ _ _ _ Eph) as [H0|Hpos]; [subst sz; discriminate Ez|].
+    apply Z.ltb_lt in El. rewrite !skipn_length in *. lia.
+  Qed.
+
+  Lemma par_fuel : forall f1 f2 s p, (List.length p < f1)%nat -> (List.length p < f2)%nat -> par f1 s p = par f2 s p.
+  Proof.
+    induction f1 as [|f1 IH]; intros f2 s p H1 H2; [lia|]. destruct f2 as [|f2]; [lia|]. rewrite !par_S.
+    apply par_body_ext. intros s' p' Hl. apply IH; lia.
+  Qed.
+
+  (* ---------- 3d. reading a ++ b in one piece, and a then b *)
+  Lemma pending_fields : forall s s1 ok, pending s = (s1, ok) ->
+    stash s1 = stash s /\ firstHdr s1 = firstHdr s /\ isEOF s1 = isEOF s /\ left s1 = left s /\ (ok = true -> parsedSig s1 = []).
+  Proof.
+    intros s s1 ok H. unfold pending, SignedChunk.check_sig in H. destruct (parsedSig s) eqn:E; inversion H; subst; proj.
+    - repeat split; auto.
+    - repeat split; auto. intros Hb. rewrite Hb. reflexivity.
+  Qed.
+  Lemma pending_nil : forall s, parsedSig s = [] -> pending s = (s, true).
+  Proof. intros s H. unfold pending. rewrite H. reflexivity. Qed.
+
+  Lemma set_eof_id : forall s, isEOF s = false -> set_eof s false = s.
+  Proof. intros [] H. cbn in H. subst. reflexivity. Qed.
+
+  Lemma nrm_prefix : forall d X Y, nrm X = nrm Y ->
+    nrm (let '(o, e, s) := X in (d ++ o, e, s)) = nrm (let '(o, e, s) := Y in (d ++ o, e, s)).
+  Proof. intros d [[o e] s] [[o' e'] s'] H. cbn in *. inversion H; subst. destruct e'; inversion H; subst; reflexivity. Qed.
+
+  Lemma skipn_app_le : forall (n : nat) (a b : bytes), (n <= List.length a)%nat -> skipn n (a ++ b) = skipn n a ++ b.
+  Proof. intros n a b H. rewrite skipn_app. replace (n - List.length a)%nat with O by lia. reflexivity. Qed.
+  Lemma skipn_app_ge : forall (n : nat) (a b : bytes), (List.length a <= n)%nat -> skipn n (a ++ b) = skipn (n - List.length a) b.
+  Proof. intros n a b H. rewrite skipn_app. rewrite skipn_all2 by lia. reflexivity. Qed.
+  Lemma firstn_app_le : forall (n : nat) (a b : bytes), (n <= List.length a)%nat -> firstn n (a ++ b) = firstn n a.
+  Proof. intros n a b H. rewrite firstn_app. replace (n - List.length a)%nat with O by lia. cbn [firstn]. apply app_nil_r. Qed.
+  Lemma firstn_app_ge : forall (n : nat) (a b : bytes), (List.length a <= n)%nat -> firstn n (a ++ b) = a ++ firstn (n - List.length a) b.
+  Proof. intros n a b H. rewrite firstn_app. rewrite firstn_all2 by lia. reflexivity. Qed.
+
+  Definition data_part (rec : cst -> bytes -> bytes * rerr * cst) (s3 : cst) (sz : Z) (data : bytes) : bytes * rerr * cst :=
+    let n := Z.of_nat (List.length data) in
+    if (sz <? n)%Z then
+      let d := firstn (Z.to_nat sz) data in
+      let '(out, e, s5) := rec (hash_data (set_left s3 0) d) (skipn (Z.to_nat sz) data) in (d ++ out, e, s5)
+    else (data, E_None, hash_data (set_left s3 (sz - n)) data).
+
+  Lemma hash_hash : forall s l x y, hash_data (hash_data (set_left s l) x) y = set_left (hash_data (set_left s 0) (x ++ y)) l.
+  Proof. intros s l x y. unfold hash_data, set_left. proj. rewrite !app_assoc. reflexivity. Qed.
+
+  (* the chunk's data was not complete at the end of a: the reader's state records how much is left, and going on with b is going on
+     with the chunk *)
+  Lemma data_resume : forall f s3 sz da b, isEOF s3 = false -> (Z.of_nat (List.length da) <= sz)%Z -> (List.length b < f)%nat ->
+    nrm (data_part (par f) s3 sz (da ++ b)) =
+    nrm (let '(o2, e2, s2) := read (hash_data (set_left s3 (sz - Z.of_nat (List.length da))) da) b false in (da ++ o2, e2, s2)).
+  Proof.
+    intros f s3 sz da b Heof Hle Hf. unfold data_part, SignedChunk.read.
+    set (S1 := hash_data (set_left s3 (sz - Z.of_nat (List.length da))) da).
+    assert (HS1 : set_eof S1 false = S1) by (apply set_eof_id; unfold S1, hash_data, set_left; proj; exact Heof).
+    rewrite HS1. change (left S1) with (sz - Z.of_nat (List.length da))%Z.
+    rewrite app_length, Nat2Z.inj_add.
+    destruct (sz <? Z.of_nat (List.length da) + Z.of_nat (List.length b))%Z eqn:E1.
+    - apply Z.ltb_lt in E1. replace (sz - Z.of_nat (List.length da) <? Z.of_nat (List.length b))%Z with true by (symmetry; apply Z.ltb_lt; lia).
+      assert (Hk : (Z.to_nat sz - List.length da)%nat = Z.to_nat (sz - Z.of_nat (List.length da))) by lia.
+      rewrite firstn_app_ge, skipn_app_ge by lia. rewrite Hk.
+      set (L := (sz - Z.of_nat (List.length da))%Z) in *. set (d2 := firstn (Z.to_nat L) b). set (X := skipn (Z.to_nat L) b).
+      assert (HX : (List.length X <= List.length b)%nat) by (unfold X; rewrite skipn_length; lia).
+      assert (Hn : nrm (par f (hash_data (set_left s3 0) (da ++ d2)) X) =
+                   nrm (par (S (List.length b)) (if (0 <? L)%Z then hash_data S1 d2 else S1) X)).
+      { rewrite (par_fuel f (S (List.length b))) by lia. destruct (0 <? L)%Z eqn:E0.
+        - unfold S1. rewrite hash_hash. symmetry. apply par_left.
+        - assert (L = 0)%Z by (apply Z.ltb_ge in E0; lia). unfold d2. rewrite H. cbn [Z.to_nat firstn]. rewrite app_nil_r. unfold S1. fold L. rewrite H. reflexivity. }
+      destruct (par f (hash_data (set_left s3 0) (da ++ d2)) X) as [[o e] sx].
+      destruct (par (S (List.length b)) (if (0 <? L)%Z then hash_data S1 d2 else S1) X) as [[o' e'] sx'].
+      cbn [nrm] in Hn |- *. inversion Hn; subst. rewrite <- app_assoc. reflexivity.
+    - apply Z.ltb_ge in E1. replace (sz - Z.of_nat (List.length da) <? Z.of_nat (List.length b))%Z with false by (symmetry; apply Z.ltb_ge; lia).
+      cbn [nrm]. f_equal. f_equal. unfold S1, hash_data, set_left. proj. rewrite <- !app_assoc. f_equal. lia.
+  Qed.
+
+  (* ---------- 4. valid streams: the encoder the reader is the inverse of *)
+  Notation csig := (chunk_signature sha256 hmac256 hex key stsPayload).
+  Notation tsign := (trailer_signature sha256 hmac256 hex key stsTrailer).
+
+  Definition ck_of (pay : bytes) : bytes := match trailer with Some t => trailer_sum t pay | None => [] end.
+  Definition tsig_of (sig pay : bytes) : bytes := match trailer with Some t => tsign t sig (ck_of pay) | None => [] end.
+
+  (* a chunk is (spelling of its size, data); prev: the signature the next one chains on; pay: the payload so far *)
+  Fixpoint enc (first : bool) (prev pay : bytes) (cs : list (bytes * bytes)) (a0 : bytes) : bytes :=
+    match cs with
+    | [] => let sig := csig prev [] in fhdr first a0 sig (ck_of pay) (tsig_of sig pay)
+    | (a, d) :: r => let sig := csig prev d in dhdr first a sig ++ d ++ enc false sig (pay ++ d) r a0
+    end.
+
+  Definition wf_chunk (c : bytes * bytes) : Prop :=
+    ~ In 59 (fst c) /\ parse_hex (fst c) = Some (Z.of_nat (List.length (snd c))) /\ snd c <> [].
+  Definition wf_final (a0 : bytes) : Prop := ~ In 59 a0 /\ parse_hex a0 = Some 0%Z.
+
+  (* the state at a chunk boundary: nothing stashed, and once the pending signature check is made the chain stands at prev *)
+  Definition bstate (s : cst) (first : bool) (prev pay : bytes) : Prop :=
+    stash s = None /\ firstHdr s = first /\ cbuf s = pay /\
+    ((parsedSig s = [] /\ prevSig s = prev /\ hbuf s = []) \/ (parsedSig s = prev /\ prev <> [] /\ csig (prevSig s) (hbuf s) = prev)).
+
+  Lemma pending_bstate : forall s first prev pay, bstate s first prev pay ->
+    exists s1, pending s = (s1, true) /\ stash s1 = None /\ firstHdr s1 = first /\ cbuf s1 = pay /\ prevSig s1 = prev /\ parsedSig s1 = [] /\ hbuf s1 = [].
+  Proof.
+    intros s first prev pay [Hst [Hf [Hc [[Hp [Hv Hh]]|[Hp [Hne He]]]]]]; unfold pending.
+    - rewrite Hp. exists s. repeat split; assumption.
+    - rewrite Hp. destruct prev as [|x prev']; [exfalso; apply Hne; reflexivity|]. unfold SignedChunk.check_sig. rewrite He, Hp, beq_refl.
+      eexists. split; [reflexivity|]. cbn. repeat split; assumption.
+  Qed.
+
+  Lemma enc_nonempty : forall cs first prev pay a0 rest, enc first prev pay cs a0 ++ rest <> [].
+  Proof.
+    intros cs first prev pay a0 rest H. apply (f_equal (@List.length N)) in H. destruct cs as [|[a d] r]; cbn [enc] in H; unfold fhdr, dhdr in H;
+      rewrite !app_length in H; cbn [List.length] in H; rewrite !app_length in H; replace (List.length chunkSigKw) with 16%nat in H by reflexivity; lia.
+  Qed.
+
+  Section Valid.
+    Hypothesis Hhex13 : forall x, ~ In 13 (hex x).
+    Hypothesis Hhexne : forall x, hex x <> [].
+    Variables (a0 total : bytes).
+    Hypothesis Hfin : wf_final a0.
+    Hypothesis Htr : forall t, trailer = Some t -> ~ In 13 (trailer_sum t total) /\ valid_checksum t (trailer_sum t total) = true.
+
+    Lemma par_enc : forall cs first prev pay s f rest,
+      Forall wf_chunk cs -> pay ++ concat (map snd cs) = total -> bstate s first prev pay -> (List.length cs < f)%nat ->
+      exists s', par f s (enc first prev pay cs a0 ++ rest) = (concat (map snd cs), E_EOF, s').
+    Proof.
+      induction cs as [|[a d] cs IH]; intros first prev pay s f rest Hwf Htot Hb Hf; (destruct f as [|f]; [lia|]); rewrite par_S; unfold par_body;
+        destruct (pending_bstate _ _ _ _ Hb) as [s1 [Hpend [Hst [Hfirst [Hcb [Hprev [Hps Hhb]]]]]]]; rewrite Hpend; cbn [negb];
+        rewrite parse_header_h; unfold stash_len, stash_bytes; rewrite Hst; cbn [List.length Nat.ltb Nat.leb app]; rewrite Hfirst.
+      - cbn [enc concat map] in *. rewrite app_nil_r in Htot. subst pay.
+        destruct Hfin as [Ha0 Hp0].
+        rewrite (hparse_fhdr first a0 (csig prev []) (ck_of total) (tsig_of (csig prev []) total) rest Ha0 Hp0 (Hhex13 _)).
+        2: { intros t Et. destruct (Htr t Et) as [H1 H2]. unfold ck_of, tsig_of. rewrite Et. repeat split; try assumption. apply Hhex13. }
+        unfold tsig_of, ck_of. destruct trailer as [t|]; cbn [apply_h Z.eqb]; unfold SignedChunk.check_sig, reset_hash, set_parsed, set_stash;
+          cbn [stash left prevSig parsedSig hbuf cbuf firstHdr isEOF trailerSig parsedChecksum];
+          rewrite ?Hprev, ?Hcb, ?beq_refl; cbn [negb]; rewrite ?beq_refl; cbn [negb]; eexists; reflexivity.
+      - cbn [enc concat map snd] in *. inversion Hwf as [|c cs' [Ha [Hp Hd]] Hwf']; subst c cs'. cbn [fst snd] in Ha, Hp, Hd.
+        set (sig := csig prev d) in *. set (E := enc false sig (pay ++ d) cs a0).
+        replace ((dhdr first a sig ++ d ++ E) ++ rest) with (dhdr first a sig ++ d ++ E ++ rest) by (rewrite <- !app_assoc; reflexivity).
+        assert (Hneg : (Z.of_nat (List.length d) <? 0)%Z = false) by (apply Z.ltb_ge; lia).
+        assert (Hz : (Z.of_nat (List.length d) =? 0)%Z = false) by (apply Z.eqb_neq; destruct d; [exfalso; apply Hd; reflexivity|cbn [List.length]; lia]).
+        assert (Hs13 : ~ In 13 sig) by (apply Hhex13).
+        rewrite (hparse_dhdr first a sig _ _ Ha Hp Hneg Hz Hs13). cbn [apply_h]. rewrite Hz.
+        set (L := List.length (dhdr first a sig)). replace (Z.of_nat L - Z.of_nat 0)%Z with (Z.of_nat L) by lia.
+        assert (Hlenp : List.length (dhdr first a sig ++ d ++ E ++ rest) = (L + List.length (d ++ E ++ rest))%nat) by (rewrite app_length; reflexivity).
+        rewrite Hlenp. replace ((Z.of_nat L <? 0)%Z || (Z.of_nat (L + List.length (d ++ E ++ rest)) <? Z.of_nat L)%Z) with false
+          by (symmetry; apply orb_false_intro; apply Z.ltb_ge; lia).
+        rewrite Nat2Z.id. unfold L. rewrite skipn_len_app.
+        assert (Hne : List.length (E ++ rest) <> O).
+        { pose proof (enc_nonempty cs false sig (pay ++ d) a0 rest) as Hn. fold E in Hn. destruct (E ++ rest); [exfalso; apply Hn; reflexivity|discriminate]. }
+        replace (Z.of_nat (List.length d) <? Z.of_nat (List.length (d ++ E ++ rest)))%Z with true by (symmetry; apply Z.ltb_lt; rewrite app_length; lia).
+        rewrite Nat2Z.id, firstn_len_app, skipn_len_app.
+        inversion Hwf as [|c cs' _ Hwf'']; subst c cs'.
+        destruct (IH false sig (pay ++ d) (hash_data (set_left (set_parsed {| stash := None; left := left s1; prevSig := prevSig s1; parsedSig := parsedSig s1; hbuf := hbuf s1;
+                     cbuf := cbuf s1; firstHdr := false; isEOF := isEOF s1; trailerSig := trailerSig s1; parsedChecksum := parsedChecksum s1 |} sig) 0) d) f rest Hwf'') as [s' Hs'].
+        + rewrite <- app_assoc. exact Htot.
+        + unfold bstate, hash_data, set_left, set_parsed. cbn [stash left prevSig parsedSig hbuf cbuf firstHdr isEOF trailerSig parsedChecksum].
+          repeat split; try reflexivity; [rewrite Hcb; reflexivity|]. right. rewrite Hprev, Hhb. cbn [app]. repeat split; try reflexivity. apply Hhexne.
+        + cbn [List.length] in Hf. lia.
+        + fold E in Hs'. rewrite Hs'. eexists. reflexivity.
+    Qed.
+
+    Lemma enc_len : forall cs first prev pay, (List.length cs < List.length (enc first prev pay cs a0))%nat.
+    Proof.
+      induction cs as [|[a d] cs IH]; intros first prev pay; cbn [enc List.length].
+      - unfold fhdr. rewrite !app_length. cbn [List.length]. lia.
+      - unfold dhdr. rewrite !app_length. cbn [List.length]. specialize (IH false (csig prev d) (pay ++ d)). lia.
+    Qed.
+
+    (* the whole stream in one delivery decodes to the payload and ends cleanly *)
+    Theorem decode_whole : forall seed cs eof, Forall wf_chunk cs -> concat (map snd cs) = total ->
+      run (init seed) [(enc true seed [] cs a0, eof)] [] = (total, E_EOF).
+    Proof.
+      intros seed cs eof Hwf Htot. cbn [SignedChunk.run]. unfold SignedChunk.read.
+      set (F := enc true seed [] cs a0). set (s0 := set_eof (init seed) eof).
+      assert (HF : (0 < List.length F)%nat) by (pose proof (enc_len cs true seed []); fold F in H; lia).
+      replace (left s0 <? Z.of_nat (List.length F))%Z with true by (symmetry; apply Z.ltb_lt; cbn; lia).
+      change (left s0) with 0%Z. cbn [Z.to_nat firstn skipn Z.ltb Z.compare].
+      destruct (par_enc cs true seed [] s0 (S (List.length F)) [] Hwf Htot) as [s' Hs'].
+      - unfold bstate, s0, set_eof, init. cbn [stash left prevSig parsedSig hbuf cbuf firstHdr isEOF trailerSig parsedChecksum]. repeat split. left. repeat split.
+      - pose proof (enc_len cs true seed []). fold F in H. lia.
+      - fold F in Hs'. rewrite app_nil_r in Hs'. rewrite Hs'. cbn [app]. rewrite Htot. reflexivity.
+    Qed.
+  End Valid.
 End Frag.
